@@ -41,7 +41,8 @@ contract('info.ValueInfo.convert', params={'datatype': 'Fun[dt]'}, returns='Opaq
 model('info.BaseInfo',
       fields={'name': 'Opt[str]', 'datatype': 'Opt[Fun[dt]]', 'minOccurs': 'int', 'maxOccurs': 'MaxOcc',
               'handler': 'Opt[str]', 'attribute': 'Opt[str]'})
-model('info.SectionInfo', fields={'sectiontype': 'Ref[TypeLike]'})
+model('InfoLike', fields={}, external=True)
+model('info.SectionInfo', fields={'sectiontype': 'Ref[TypeLike]'}, bases=['InfoLike'])
 model('TypeLike', fields={'name': 'Opt[str]'}, external=True)        # SectionType | AbstractType
 model('info.AbstractType', fields={'_subtypes': 'Map[str, Ref[info.SectionType]]', 'description': 'Opt[str]'},
       bases=['TypeLike'])
@@ -66,8 +67,12 @@ model('info.SectionType',
               'handler': 'Opt[str]', 'description': 'Opt[str]', 'example': 'Opt[str]', 'registry': 'Ref[Registry]',
               '_children': 'Seq[%s]' % CHILD, '_attrmap': 'Map[str, Ref[info.BaseInfo]]',
               '_keymap': 'Map[str, Ref[info.BaseInfo]]', '_types': 'Ref[dict:types]'},
-      bases=['TypeLike'],
-      invariant=[Clause('children_wf(self, 0)', label='RI-children-well-formed')])
+      bases=['TypeLike', 'InfoLike'],
+      invariant=[Clause('forall(lambda i: implies(0 <= i and i < len(self._children), '
+                        'child_wf(self._children[i][0], self._children[i][1])))', label='RI-children-well-formed'),
+                 Clause('forall(lambda i, j: implies(0 <= i and i < j and j < len(self._children), '
+                        'self._children[i][1].attribute != self._children[j][1].attribute))',
+                        label='RI-attributes-distinct')])
 
 contract('TypeLike.isabstract', self_type='TypeLike', returns='bool', pure=True,
          ensures=[Clause("result == isa(self, 'info.AbstractType')", carries='C12', label='abstract-iff-AbstractType')])
@@ -101,7 +106,6 @@ contract('info.SectionType.getsectioninfo', params={'type_': 'str', 'name': 'Opt
                        carries='C01,C12', label='no-slot-or-rejected')],
          hints=['slot_case(key, info, type_, name)', 'slot_search(self, _i0, type_, name)'],
          loops=[Loop(invariant=[Clause('slot_search(self, _i0, type_, name) == slot_search(self, 0, type_, name)',
-                                       label='remaining-search-equals-search'),
-                                Clause('children_wf(self, _i0)', label='RI-from-here-on')],
+                                       label='remaining-search-equals-search')],
                      hints=['slot_case(key, info, type_, name)'],
                      locals={})])
